@@ -5,7 +5,7 @@ Open Scope Z_scope.
 
 Definition judge (h : case) : N :=
   let lower := lower_tab (h_tab h) in
-  let mism := existsb (step_mismatch lower (h_cfg h) (h_pol h)) (h_steps h) in
+  let mism := existsb (case_step_mismatch h lower (h_cfg h) (h_pol h)) (h_steps h) in
   let holds := forallb (mediation_holds lower (h_cfg h) (h_pol h)) (h_steps h) in
   code mism holds 0.
 
